@@ -111,8 +111,18 @@ def _plan(tier, seed):
             for h, (lab, d) in items:
                 jobs.append({"id": f"{cid}#{h}", "cid": cid, "labels": {"code.py": lab}, "files": {"code.py": b64(d)},
                              "argv": ["{proj}", "--output", "{out}", "--codemod-include", cid], "repeat": 2, "monitors": {"snap": False}})
-    jobs += sast_jobs(tier, seed) + django_jobs() + family_jobs(tier, seed) + manifest_jobs(tier, seed)
+    jobs += sast_jobs(tier, seed) + django_jobs() + family_jobs(tier, seed) + manifest_jobs(tier, seed) + large_project_jobs(tier, seed)
     return jobs
+
+def large_project_jobs(tier, seed):
+    """a project with several hundred files, a handful of them with a site of a semgrep-detected codemod spread over the sorted file list: size is a dimension too"""
+    out = []
+    for cid, trig in (("pixee:python/requests-verify", b"import requests\nrequests.get('https://example.com', verify=False)\n"),) + ((("pixee:python/secure-random", b"import random\nx = random.random()\n"),) if tier != "quick" else ()):
+        n = 520 + 10 * (seed % 3); hot = {3, 120, 250, n - 21, n - 20, n - 13, n - 1}
+        files = {f"pkg{i // 100}/mod_{i:04d}.py": b64(trig if i in hot else b"value_%d = %d\n" % (i, i)) for i in range(n)}
+        out.append({"id": f"{cid}#large-project", "cid": cid, "labels": {os.path.basename(k): ("large-project", "plain", "lf") for k in files}, "files": files,
+                    "argv": ["{proj}", "--output", "{out}", "--codemod-include", cid], "repeat": 2, "monitors": {"snap": False}})
+    return out
 
 def manifest_jobs(tier, seed):
     """dependency-adding codemods on projects whose manifest is itself a Python file (setup.py): the dependency writer rewrites source too"""
